@@ -369,6 +369,11 @@ inductive Ev where
   `conn.cc_target_bps`).  The verdicts are INPUTS of the event: the components that compute them are
   modelled separately (`Model/Classifier.lean`, `Model/LinkCc.lean`). -/
   | stamp (idx : Nat) (weak lossDegraded ccBackingOff : Bool) (ccTargetBps : Nat)
+  /-- `srtla_core::selection::sync_conn_timeout(conns, &ConfigSnapshot)`: every link's copy of the connection
+  timeout is set to the configured value.  The housekeeping arm of the event loop (and the pre-loop pass)
+  calls it right before `handle_housekeeping`: the real arm is the two-event sequence
+  `[.syncTimeout, .hk now]`.  (`apply_stall_gate` performs the same write in every selection pass.) -/
+  | syncTimeout
 
 def step (s : Sys F) : Ev → Sys F × Out
   | .client now pkt => handleSrtPacket s pkt now
@@ -380,5 +385,7 @@ def step (s : Sys F) : Ev → Sys F × Out
   | .failNext cid => ({ s with failNext := cid :: s.failNext }, {})
   | .failBind cid => ({ s with failBind := cid :: s.failBind }, {})
   | .stamp idx weak ld ccb cct => ({ s with links := stampLink s.links idx weak ld ccb cct }, {})
+  | .syncTimeout =>
+    ({ s with links := s.links.map fun l => { l with connTimeoutMs := s.cfg.connTimeoutMs } }, {})
 
 end Srtla.Sys
